@@ -304,3 +304,69 @@ def check_midbuild_targets_scheduled(ctx, rid, prog):
                   witness=None if r is None else {'blocks': r[0]})
     if not adds:
         ctx.inst(rid, f.loc, 'RefreshDyndepDependents plans no new targets')
+
+
+def check_logged_mtime_compared(ctx, rid, prog):
+    """In both instantiations of the output check: when the output has a log entry and there is a newest input, no
+    clean verdict (`return false`) is reachable without the comparison `logged mtime < newest input` having been made.
+    The only ways around the comparison are: no build log, no entry for the output, no input at all."""
+    def way_around(atom, pol):
+        a = dstr(atom)
+        if mentions_field(atom, 'RecomputeOutputsDirtyCache::buildLog_') and 'LookupByOutput' not in a:
+            return pol is False
+        if mentions_call(atom, 'RecomputeOutputsDirtyCache::CachedLogEntry::LookupByOutput') or \
+                'CachedLogEntry::entry_' in a or mentions_call(atom, 'RecomputeOutputsDirtyCache::CachedLogEntry::is_valid'):
+            return pol is False
+        sa = strip(atom)
+        if isinstance(sa, dict) and sa.get('k') == 'var' and var_base(sa) == 'most_recent_input':
+            return pol is False
+        return False
+    n = 0
+    for name in OUTDIRTY:
+        f = prog.fn(name)
+        cmp_blocks = {bid for bid, a, rl, rr in ts_comparisons(f) if (rl, rr) == ('LOG', 'IN')}
+        if not cmp_blocks:
+            ctx.violation(rid, f.name, 'logged-mtime:comparison-absent', f.loc,
+                          '%s no longer compares the logged mtime with the newest input' % f.name)
+            n += 1
+            continue
+        # the parameter (not a local of the same name)
+        has_param = any(p.get('n') == 'most_recent_input' for p in (f.params or []))
+
+        def edge_ok(b, i, s, f=f, cmp_blocks=cmp_blocks):
+            if b in cmp_blocks:
+                return False
+            return not any(way_around(atom, pol) for k, pol, atom in f.edge_facts(b, i))
+        r = f.find_path(None, lambda x: x['k'] == 'ret' and const_value(x.get('e')) == 0, from_succ=f.entry, edge_ok=edge_ok)
+        n += 1
+        ctx.check(rid, r is None and has_param, f.name, 'logged-mtime:comparison-skipped', f.loc if r is None else f.where(r[1]),
+                  'with a log entry and a newest input, %s says "clean" only after comparing the logged mtime with that input' % f.name,
+                  witness=None if r is None else {'blocks': r[0]})
+    return n
+
+
+def check_recheck_is_full(ctx, rid, prog):
+    """DependencyScan::RecomputeOutputsDirty (the re-check behind restat pruning): whatever it stores through its
+    `outputs_dirty` out-parameter is the verdict of the full output check, RecomputeOutputsDirtyCache::all(most_recent_input)
+    - never a constant or a shortcut - and every return that reports success has stored it."""
+    rod = prog.fn('DependencyScan::RecomputeOutputsDirty')
+    outp = None
+    for p in rod.params or []:
+        if 'bool *' in (p.get('ty') or '') or 'bool*' in (p.get('ty') or ''):
+            outp = p['n']
+    if outp is None:
+        raise AnalysisBroken('RecomputeOutputsDirty has no bool* out-parameter')
+    stores = [e for e in rod.stores() if mentions_var(e.get('l'), outp) and strip(e.get('l')).get('k') != 'var']
+    from rules import deep_resolve
+
+    def full(e):
+        r = deep_resolve(rod, e.get('r') if e.get('k') != 'decl' else e.get('init'))
+        return mentions_call(r, 'RecomputeOutputsDirtyCache::all') and mentions_var(r, 'most_recent_input')
+    for e in stores:
+        ctx.check(rid, full(e), rod.name, 'recheck:verdict-not-from-full-check', rod.where(e),
+                  'the re-check reports exactly what RecomputeOutputsDirtyCache::all(most_recent_input) says: `%s`' % (e.get('src') or '')[:70])
+    r = rod.find_path(None, lambda x: x['k'] == 'ret' and const_value(x.get('e')) != 0, from_succ=rod.entry,
+                      is_blocker=lambda x: x in stores and full(x))
+    ctx.check(rid, bool(stores) and r is None, rod.name, 'recheck:success-without-verdict', rod.loc,
+              'every successful return of the re-check has stored the full verdict',
+              witness=None if r is None else {'blocks': r[0]})
